@@ -1,3 +1,4 @@
+\* C13, see tools/checks/c13.py for the constant overrides of the two tiers
 SPECIFICATION Spec
 CONSTANTS
   WithArg = TRUE
